@@ -187,6 +187,44 @@ def scen_restore_exp(env, has_allowed, has_check, schema_kind):
             env.check('restore-exp', And_(ie.state == 'expired', eq_(ie.output, out_e)), info=lambda: (pv, ie.state, ie.output))
 
 
+def scen_inputexp_default_expired(env, validator):
+    """InputExp's expired value defaults to None; it is validated like any other: validators that reject None make
+    the constructor refuse the block, whether None is passed explicitly or by default"""
+    circ = sync_circuit()
+    c = env.int('check_min')
+    kw = {}
+    if validator == 'allowed':
+        kw['allowed'] = list(ALLOWED)
+    elif validator == 'check':
+        kw['check'] = lambda v: v is not None and v >= c
+    elif validator == 'schema':
+        def schema(v):
+            if v is None:
+                raise ValueError("a number is required")
+            return v + 1
+        kw['schema'] = schema
+    elif validator == 'allowed-with-none':
+        kw['allowed'] = [None, 0, 2]
+    if env.choose(2, 'explicit_none'):
+        kw['expired'] = None
+    init_given = env.choose(2, 'init_given')
+    if init_given:
+        kw['initdef'] = 2
+        env.assume(c <= 2)
+    try:
+        ie = edzed.InputExp('ie', duration=edzed.INF_TIME, **kw)
+        created = True
+    except (ValueError, TypeError):
+        created = False
+    rejects_none = validator in ('allowed', 'check', 'schema')
+    env.note('expired-none-refused' if rejects_none else 'expired-none-accepted')
+    env.check('exp-ctor', created == (not rejects_none), info=lambda: (validator, kw.keys(), created))
+    if created:
+        start_sync(circ)
+        if not init_given:
+            env.check('exp-init', ie.state == 'expired' and ie.output is None, info=lambda: (ie.state, ie.output))
+
+
 def scen_inputexp(env, has_allowed, has_check, schema_kind, n):
     circ = sync_circuit()
     val = Validators(env, has_allowed, has_check, schema_kind)
@@ -244,4 +282,7 @@ def shards(tier):
                 out.append({'name': f'restore inputexp {tag}', 'scenario': 'scen_restore_exp', 'params': p})
                 out.append({'name': f'inputexp {tag}', 'scenario': 'scen_inputexp',
                             'params': {**p, 'n': min(nn, 2 if a else 3)}, 'cost': 5})
+    for v in ('allowed', 'check', 'schema', 'allowed-with-none', 'none'):
+        out.append({'name': f'inputexp default expired value, validator={v}', 'scenario': 'scen_inputexp_default_expired',
+                    'params': {'validator': v}})
     return out
